@@ -16,9 +16,9 @@ def run(tier):
     cases = os.path.join(d, "cases.ndjson")
     vf.run_harness(binpath, ["color", "gen", "--seed", vf.seed(), "--tier", tier], stdout_path=cases)
     vf.exec_and_validate(chk, binpath, "color", "TV_Color", cases, jvms=10, what="observation")
-    if tier == "thorough":
-        plain = vf.build_harness("plain")
-        vf.exec_and_validate(chk, plain, "color", "TV_Color", cases, jvms=10, what="observation (plain release build)")
+    # also in a plain release build (no debug assertions, wrapping arithmetic): what a user ships
+    plain = vf.build_harness("plain")
+    vf.exec_and_validate(chk, plain, "color", "TV_Color", cases, jvms=10, what="observation (plain release build)")
     chk.cov["distinct_nontrivial"] = chk.cov["traces_validated_against_impl"]
     chk.cov["rule"] = ("8-bit: rows (r,g) x all b of rgb->hsl->rgb and rows (h,s) x all l of hsl->rgb (quick: a 68x68 sub-"
                        "lattice of rows, thorough: all 2^24 both ways), aggregated per row (max error, panics, gray laws); "
